@@ -102,6 +102,46 @@ macro_rules! bodies {
             cover!(N <= 3 || (got >> (32 - N)) & 1 == 1 && z != 0 && x != 0);
             cmp_n(N, got, want)
         }
+        /// one slice of the partition of real triples for wide N (as c05::p32::slice): sign relation of product and
+        /// effective addend x alignment distance scale(a)+scale(b)-scale(c). OP: 0 mul_add, 1 mul_sub, 2 sub_product
+        pub fn fma_slice<const N: u32, const OP: u8, const SAME: bool, const DLO: i32, const DHI: i32, S: Src>(s: &mut S) -> Outcome {
+            let (x, y, z) = match (draw::<N, S>(s), draw::<N, S>(s), draw::<N, S>(s)) {
+                (Some(x), Some(y), Some(z)) => (x, y, z),
+                _ => return Outcome::skip(),
+            };
+            crate::assume!(s, r::is_real(N, x) && r::is_real(N, y) && r::is_real(N, z));
+            let (xe, ze) = match OP {
+                0 => (x, z),
+                1 => (x, r::neg_n(N, z)),
+                _ => (r::neg_n(N, x), z),
+            };
+            let sp = r::sign_of(N, xe) != r::sign_of(N, y);
+            let sc = r::sign_of(N, ze);
+            let d = r::scale_of(N, $es, x) + r::scale_of(N, $es, y) - r::scale_of(N, $es, z);
+            crate::assume!(s, (sp == sc) == SAME && d >= DLO && d <= DHI);
+            let (a, b, c) = (mk::<N>(x), mk::<N>(y), mk::<N>(z));
+            let got = match OP {
+                0 => a.mul_add(b, c),
+                1 => a.mul_sub(b, c),
+                _ => c.sub_product(a, b),
+            }
+            .to_bits();
+            cover!((got >> (32 - N)) & 1 == 1 && got >> (32 - N) != 1);
+            cmp_n(N, got, r::fma(N, $es, xe, y, ze))
+        }
+        /// zero / NaR operands of the mul_add family, all three operations
+        pub fn fma_special<const N: u32, S: Src>(s: &mut S) -> Outcome {
+            let (x, y, z) = match (draw::<N, S>(s), draw::<N, S>(s), draw::<N, S>(s)) {
+                (Some(x), Some(y), Some(z)) => (x, y, z),
+                _ => return Outcome::skip(),
+            };
+            crate::assume!(s, !(r::is_real(N, x) && r::is_real(N, y) && r::is_real(N, z)));
+            let (a, b, c) = (mk::<N>(x), mk::<N>(y), mk::<N>(z));
+            cover!(z == 0 && x & 1 == 1 && y & 1 == 1 && r::sign_of(N, x));
+            cmp_n(N, a.mul_add(b, c).to_bits(), r::fma(N, $es, x, y, z))
+                .and(cmp_n(N, a.mul_sub(b, c).to_bits(), r::fma(N, $es, x, y, r::neg_n(N, z))))
+                .and(cmp_n(N, c.sub_product(a, b).to_bits(), r::fma(N, $es, r::neg_n(N, x), y, z)))
+        }
         pub fn round<const N: u32, S: Src>(s: &mut S) -> Outcome {
             let x = match draw::<N, S>(s) {
                 Some(x) => x,
